@@ -122,6 +122,7 @@ pub struct Profile {
     pub fault_kinds: Vec<u64>, // 1 fail, 2 zero/eof, 3 drop
     pub chunks: Vec<u64>,
     pub ack_rc: (u64, u64),    // probability of a failure reason code in an ack
+    pub setpid: (u64, u64),    // probability of presetting the identifier counter (hook) before a connect
 }
 
 pub fn base_profile() -> Profile {
@@ -156,6 +157,7 @@ pub fn base_profile() -> Profile {
         fault_kinds: vec![1, 2, 3, 3],
         chunks: vec![1, 1, 2, 3, 5, 8, 1000, 1000, 1000],
         ack_rc: (1, 6),
+        setpid: (0, 1),
     }
 }
 
@@ -236,6 +238,10 @@ pub fn profile(name: &str) -> Profile {
             p.tx = vec![256, 1152];
             p.payloads = vec![0, 1];
             p.fault = (1, 6);
+            p.setpid = (2, 3);
+            p.conns = (2, 5);
+            p.resume = (9, 10);
+            p.bad_connack = (1, 40);
         }
         "c08" => {
             p.w_garbage = 8;
@@ -476,6 +482,18 @@ pub fn gen_case(r: &mut Rng, p: &Profile) -> Case {
     for _ in 0..conns {
         if auto {
             actions.push(a_num(12, 1));
+        }
+        if r.chance(p.setpid.0, p.setpid.1) {
+            // the hook is only honoured while no handle exists
+            actions.push(a_simple(DROP));
+            let v = if !inflight.is_empty() && r.chance(1, 2) {
+                let base = inflight[r.below(inflight.len() as u64) as usize].0 as u64;
+                (base + 65535 - r.below(3)) % 65535 + 1
+            } else {
+                *r.pick(&[65533u64, 65534, 65535, 0, 1, 2])
+            };
+            actions.push(a_num(13, v));
+            next_pid = if v == 0 { 1 } else { v as u16 };
         }
         let sp = connected_once && r.chance(p.resume.0, p.resume.1);
         let mut chunks = Vec::new();
